@@ -530,3 +530,16 @@ Example C10_parse_total_bounded_imports_nonvacuous :
   (exists bl, parse_tokens [] 4 TotalExample.wglobs [(1, Some [TotalExample.tk 1 1 "root"%string; TotalExample.tk 1 1 "/srv"%string])]
                 (import_fuel 4 (length TotalExample.main) 13) TotalExample.main = POk bl).
 Proof. split; [exact TotalExample.wglobs_bounded|exact TotalExample.bounded_imports_witness]. Qed.
+
+(* The executable reference used for the soup stream of the correspondence harness (kind 1 cases:
+   the model run with the PROVED fuel tokens+4 and the implementation's own import bound 10000)
+   answers server blocks or an error class for every input text without import directives. *)
+Theorem C10_soup_reference_total : forall env globs files inp,
+  forallb (noimpb env) (lex inp) = true -> is_res (parse_soup env globs files inp) = true.
+Proof. exact parse_soup_result. Qed.
+Print Assumptions C10_soup_reference_total.
+
+Example C10_soup_reference_total_nonvacuous :
+  forallb (noimpb std_env) (lex (bs "a.com, { dir { x } } } { {$V_BR} "%string)) = true /\
+  parse_soup std_env [] [] (bs "a.com, { dir { x } } } { {$V_BR} "%string) = PErr ESyntax.
+Proof. split; vm_compute; reflexivity. Qed.
